@@ -209,10 +209,6 @@ class SemantivaOrchestrator(ABC):
                 **run_space_kwargs,
             )
 
-        # NOW instantiate nodes (this may emit 'instantiate' events)
-        nodes, node_defs = self._instantiate_nodes(resolved_spec, logger)
-        self._last_nodes = list(nodes)
-
         trace_active = (
             trace is not None and run_id is not None and pipeline_id is not None
         )
@@ -232,6 +228,11 @@ class SemantivaOrchestrator(ABC):
                 pass
 
         try:
+            # NOW instantiate nodes (this may emit 'instantiate' events); a failure
+            # here is reported by pipeline_end and the trace is flushed and closed
+            nodes, node_defs = self._instantiate_nodes(resolved_spec, logger)
+            self._last_nodes = list(nodes)
+
             for index, node in enumerate(nodes):
                 node_def = node_defs[index]
                 node_id = node_uuids[index] if index < len(node_uuids) else ""
